@@ -425,6 +425,43 @@ func ruleAllow405(c *Ctx) {
 	})
 	partial := ""
 	dedupEq := false
+	// a membership helper given a method: its body is inspected with the parameter as the method
+	eachInstr(sf, func(i ssa.Instruction) {
+		call, ok := i.(*ssa.Call)
+		if !ok || !region[i.Block()] || call.Call.StaticCallee() == nil || !p.inModule(call.Call.StaticCallee()) || call.Call.StaticCallee().Blocks == nil {
+			return
+		}
+		h := call.Call.StaticCallee()
+		for k, a := range call.Call.Args {
+			if !methodTaint[strip(a)] || k >= len(h.Params) {
+				continue
+			}
+			hp := h.Params[k]
+			eachInstr(h, func(j ssa.Instruction) {
+				if hc, ok := j.(*ssa.Call); ok {
+					n := calleeName(&hc.Call)
+					if strings.HasPrefix(n, "strings.") && n != "strings.Join" {
+						for _, ha := range hc.Call.Args {
+							if ha == ssa.Value(hp) {
+								partial = n + " at " + p.ipos(j)
+							}
+						}
+					}
+				}
+				if bo, ok := j.(*ssa.BinOp); ok && bo.Op == token.EQL {
+					for _, pr := range [][2]ssa.Value{{bo.X, bo.Y}, {bo.Y, bo.X}} {
+						if pr[0] == ssa.Value(hp) {
+							if u, ok := strip(pr[1]).(*ssa.UnOp); ok {
+								if ia, ok := u.X.(*ssa.IndexAddr); ok && isStringSlice(ia.X.Type()) {
+									dedupEq = true
+								}
+							}
+						}
+					}
+				}
+			})
+		}
+	})
 	eachInstr(sf, func(i ssa.Instruction) {
 		if !region[i.Block()] {
 			return
@@ -839,21 +876,7 @@ func ruleC02e(c *Ctx) {
 func ruleRootRegex(c *Ctx) {
 	p := c.P
 	m := curlyMatcher(p)
-	regexHelper := func(fn *ssa.Function) *ssa.Function {
-		var out *ssa.Function
-		for _, e := range p.callGraph().Out[fn] {
-			uses := false
-			eachInstr(e.Callee, func(i ssa.Instruction) {
-				if isCallTo(i, "regexp.MatchString") {
-					uses = true
-				}
-			})
-			if uses {
-				out = e.Callee
-			}
-		}
-		return out
-	}
+	regexHelper := func(fn *ssa.Function) *ssa.Function { return regexHelperOf(p, fn) }
 	var scorer *ssa.Function
 	for _, fn := range p.SrcFunc {
 		eachInstr(fn, func(i ssa.Instruction) {
